@@ -108,13 +108,18 @@ impl PosOracle for C06 {
             Err(e) => return Err(Finding::new("standard-input", "standard text rejected", format!("'{std_txt}': {e}"))),
         }
         // the clocks of a standard FEN are arbitrary numbers; they must not disturb the position
-        let clk_txt = std_txt.replace(" 0 1", " 37 54");
-        match guard::lib(|| Board::from_str(&clk_txt)).map_err(|e| Finding::new("panic", "from_str panicked", e))? {
-            Ok(r) if r == b => {}
-            Ok(_) => return Err(Finding::new("standard-input", "clock fields change the position", format!("standard FEN '{clk_txt}' parses to a different board than with clocks 0 1"))),
-            Err(e) => return Err(Finding::new("standard-input", "standard text with other clocks rejected", format!("'{clk_txt}': {e}"))),
+        // (a long game: halfmove clock up to the hundreds, fullmove number in the hundreds or thousands)
+        const CLOCKS: [&str; 6] = [" 37 54", " 99 256", " 0 300", " 149 1000", " 7 65536", " 100 5949"];
+        let k = run.states.load(Ordering::Relaxed) as usize;
+        for clk in [CLOCKS[0], CLOCKS[1 + k % 5]] {
+            let clk_txt = std_txt.replace(" 0 1", clk);
+            match guard::lib(|| Board::from_str(&clk_txt)).map_err(|e| Finding::new("panic", "from_str panicked", e))? {
+                Ok(r) if r == b => {}
+                Ok(_) => return Err(Finding::new("standard-input", "clock fields change the position", format!("standard FEN '{clk_txt}' parses to a different board than with clocks 0 1"))),
+                Err(e) => return Err(Finding::new("standard-input", "standard text with other clocks rejected", format!("'{clk_txt}': {e}"))),
+            }
         }
-        run.add("standard_fen_parsed", 2);
+        run.add("standard_fen_parsed", 3);
         // the unvalidated builder renders and re-parses the same way
         let bb: BoardBuilder = (&b).into();
         check_builder(&bb, "builder of the board")?;
